@@ -125,6 +125,25 @@ CHECKS = {
             'through the real session machinery; internal errors are bucketed by root cause. Sampled.',
             'no sockets (peer networking disabled); throttling off.',
             'DESIGN.md §3 C16'),
+    'C07': ('exploration',
+            'whole-system model-based operation sequences under a virtual clock with a latency tape; '
+            'oracle = protocol status / tip from the reference chain + mempool model at every quiesce',
+            'Generated histories of blocks, natural and forced reorgs, mempool changes and client '
+            'subscriptions run through the real Controller.serve with real sessions; at every quiesce '
+            'each held status must be a hash of the true history (any mempool order) and the held '
+            'header the tip; messages carrying a height are checked against the database when '
+            'written. Sampled; schedules are perturbed by a tape, not enumerated.',
+            'FakeDaemon models bitcoind; spendable scripts only; CPython 3.12 asyncio internals.',
+            'DESIGN.md §3 C07'),
+    'C10': ('exploration',
+            'C07\'s machine plus generated and window-targeted client queries; oracle = a panel of '
+            'all query kinds through existing sessions compared with the reference model at every '
+            'quiesce',
+            'Cache-populating queries are placed before, inside and after reorg windows; at quiesce '
+            'history, balance, unspent, mempool, id-from-position and merkle answers must equal the '
+            'model. Sampled.',
+            'as C07.',
+            'DESIGN.md §3 C10'),
 }
 
 NOT_BUILT = {}
